@@ -64,15 +64,21 @@ fn mk_event(e: &Value) -> (Event, Priority) {
 
 fn main() {
 	let args: Vec<String> = std::env::args().collect();
-	let rt = tokio::runtime::Builder::new_multi_thread().worker_threads(4).enable_all().build().unwrap();
 	for case in read_cases(&args[2]) {
+		// a runtime per case: code under test that blocks a worker thread for good (a dead-locked handler) must not starve
+		// the following cases, and must not keep the process from exiting
+		let rt = tokio::runtime::Builder::new_multi_thread().worker_threads(4).enable_all().build().unwrap();
 		let v = match args[1].as_str() {
 			"worker" => rt.block_on(run_worker(case.clone())),
 			"wx" => rt.block_on(run_wx(case.clone())),
 			o => panic!("subcommand {o}"),
 		};
 		emit(&v);
+		rt.shutdown_timeout(Duration::from_millis(100));
 	}
+	use std::io::Write;
+	let _ = std::io::stdout().flush();
+	std::process::exit(0);
 }
 
 fn handler_fn(sc: Arc<Script>, durations: Vec<u64>, quit_after: Option<usize>, counter: Arc<Mutex<usize>>) -> impl Fn(&ActionHandler) -> (u64, bool) {
@@ -205,21 +211,36 @@ async fn run_wx(case: Value) -> Value {
 	let behs: HashMap<u64, String> = case["error_behaviours"].as_object().map(|m| m.iter().map(|(k, v)| (k.parse().unwrap(), v.as_str().unwrap().to_owned())).collect()).unwrap_or_default();
 	let (sc3, kept) = (sc.clone(), Arc::new(Mutex::new(Vec::new())));
 	let slow = case["error_slow_ms"].as_u64().unwrap_or(0);
-	config.on_error(move |hook: watchexec::ErrorHook| {
-		let msg = hook.error.to_string();
-		let id: u64 = msg.rsplit("id").next().and_then(|s| s.parse().ok()).unwrap_or(0);
-		sc3.log.lock().unwrap().push(json!({"k": "onerror", "t": ms(sc3.t0), "id": id, "msg": msg}));
-		if slow > 0 {
-			std::thread::sleep(Duration::from_millis(slow));
+	// the handler can replace itself (Config::on_error from inside its own invocation): the slot is filled once the
+	// instance exists; the replacement behaves like the original and counts its generation
+	let cfg_slot: Arc<Mutex<Option<Arc<Config>>>> = Arc::new(Mutex::new(None));
+	fn make_handler(sc3: Arc<Script>, kept: Arc<Mutex<Vec<watchexec::ErrorHook>>>, behs: Arc<HashMap<u64, String>>, slow: u64,
+		cfg_slot: Arc<Mutex<Option<Arc<Config>>>>, generation: u64) -> impl Fn(watchexec::ErrorHook) + Send + Sync + 'static {
+		move |hook: watchexec::ErrorHook| {
+			let msg = hook.error.to_string();
+			let id: u64 = msg.rsplit("id").next().and_then(|s| s.parse().ok()).unwrap_or(0);
+			sc3.log.lock().unwrap().push(json!({"k": "onerror", "t": ms(sc3.t0), "id": id, "msg": msg, "gen": generation}));
+			if slow > 0 {
+				std::thread::sleep(Duration::from_millis(slow));
+			}
+			match behs.get(&id).map(String::as_str) {
+				Some("elevate") => hook.elevate(),
+				Some("critical") => hook.critical(CriticalError::External(format!("crit{id}").into())),
+				Some("keepref") => kept.lock().unwrap().push(hook),
+				Some("replace") => {
+					let cfg = cfg_slot.lock().unwrap().clone();
+					if let Some(cfg) = cfg {
+						cfg.on_error(make_handler(sc3.clone(), kept.clone(), behs.clone(), slow, cfg_slot.clone(), generation + 1));
+						sc3.log.lock().unwrap().push(json!({"k": "replaced", "t": ms(sc3.t0), "id": id}));
+					}
+				}
+				_ => {}
+			}
 		}
-		match behs.get(&id).map(String::as_str) {
-			Some("elevate") => hook.elevate(),
-			Some("critical") => hook.critical(CriticalError::External(format!("crit{id}").into())),
-			Some("keepref") => kept.lock().unwrap().push(hook),
-			_ => {}
-		}
-	});
+	}
+	config.on_error(make_handler(sc3, kept, Arc::new(behs), slow, cfg_slot.clone(), 0));
 	let wx = Watchexec::with_config(config).unwrap();
+	*cfg_slot.lock().unwrap() = Some(wx.config.clone());
 	let main = wx.main();
 	tokio::time::sleep(Duration::from_millis(30)).await;
 	for e in case["events"].as_array().unwrap() {
